@@ -63,7 +63,9 @@ class UnitGen:
     def functions(self):
         rng = self.rng; lines = []; fs = []
         n = rng.randint(3, 8)
-        names = ['f%d_%d' % (self.uid, i) for i in range(n)]
+        # names that are proper prefixes of each other, in random order: a name table keyed by anything less than the whole name confuses them
+        stems = ['s', 'sc', 'sca', 'scale', 'scale_', 'scale_add', 'scale_add2', 'x', 'x1', 'x10']; rng.shuffle(stems)
+        names = ['f%d_%s' % (self.uid, stems[i]) for i in range(n)]
         kinds = []
         for i in range(n):
             kinds.append(rng.choice(['static inline', 'static inline', 'static inline', 'static', 'plain']))
@@ -75,7 +77,7 @@ class UnitGen:
             protos.append('%sint %s(int);' % (q, names[i]))
         lines += protos
         for i in range(n):
-            refs = [j for j in range(n) if rng.random() < 0.3]
+            refs = [j for j in range(n) if rng.random() < 0.3]; rng.shuffle(refs)
             calls = ' + '.join('%s(x - 1)' % names[j] for j in refs) or '0'
             addr = ''
             if rng.random() < 0.15 and n > 1:
